@@ -107,6 +107,12 @@ int RePair::expandRuleAndCompareString(uint rule, uchar *str, uint *pos) {
 }
 
 int RePair::extractStringAndCompareRP(uint id, uchar *str, uint strLen) {
+  // maxchar terminates every stored string and occurs in none of them: a
+  // pattern containing it would match a terminator and run into the next string
+  for (uint i = 0; i < strLen; i++)
+    if (str[i] == maxchar)
+      return 1;
+
   str[strLen] = maxchar;
 
   uint l = 0, pos = 0, next;
